@@ -252,6 +252,25 @@ class PowerBoundsCalculate:
     )
 
 
+@contract(f"{MC}:PowerBoundsCalculator.inverter_metrics")
+class InverterMetricsWanted:
+    """C17 (advertised side): the pool subscribes to the power bounds of EVERY inverter of every battery it covers -
+    calculate() sums what it is given, so an inverter that is not asked for silently drops out of the advertised bounds."""
+    self_shape = CalcT
+    pure = True
+    ensures = dict(all_inverters_of_all_batteries="set(result.keys()) == {11, 12, 13}",
+                   all_four_bounds_each="all(result[i] is self._inverter_metrics for i in (11, 12, 13))")
+
+
+@contract(f"{MC}:PowerBoundsCalculator.battery_metrics")
+class BatteryMetricsWanted:
+    """... and to the power bounds of every battery."""
+    self_shape = CalcT
+    pure = True
+    ensures = dict(all_batteries="set(result.keys()) == {1, 2, 3}",
+                   all_four_bounds_each="all(result[b] is self._battery_metrics for b in (1, 2, 3))")
+
+
 def datetime_min():
     import datetime as _dt
     return _dt.datetime.min.replace(tzinfo=_dt.timezone.utc)
